@@ -6,6 +6,8 @@ pat=${1:-*}
 root=/tmp/sm
 rm -rf $root; mkdir -p $root
 ls -d /verif/seeded/$pat/ 2>/dev/null | xargs -n1 basename | grep -E '^C[0-9]+-' | while read n; do grep -q '"superseded"' /verif/seeded/$n/meta.json 2>/dev/null || echo $n; done > $root/all.txt
+# SEED_MATRIX_SKIP=<file with one seed name per line>: seeds already done in an interrupted run (their lines are kept from SEED_MATRIX_KEEP)
+if [ -n "$SEED_MATRIX_SKIP" ] && [ -f "$SEED_MATRIX_SKIP" ]; then grep -vxFf "$SEED_MATRIX_SKIP" $root/all.txt > $root/all2.txt; mv $root/all2.txt $root/all.txt; fi
 W=${SEED_MATRIX_WORKERS:-8}
 for k in $(seq 1 $W); do git -C /repo worktree add --detach $root/w$k HEAD >/dev/null 2>&1; done
 # the checks run from a snapshot of /verif's committed state, so that /verif can be edited meanwhile
@@ -27,7 +29,7 @@ worker() {
 }
 for k in $(seq 1 $W); do worker $k & done
 wait
-cat $root/out*.txt | sort > /verif/seeded/MATRIX.txt
+cat $root/out*.txt ${SEED_MATRIX_KEEP:-/dev/null} | sort > /verif/seeded/MATRIX.txt
 for k in $(seq 1 $W); do git -C /repo worktree remove --force $root/w$k; done
 git -C /verif worktree remove --force $root/verif
 rm -rf $root
